@@ -115,6 +115,7 @@ TRUSTED = [
     "JSON line protocol encoders (harness/props/c09.py, drivers/C09.lean), including the exact scaling of floats to integers",
 ]
 ASSUMPTIONS = [
+    "A fill() that raises filled nothing (seed round K/L): histories contain fills of non-numbers (a string, None, a list, a dictionary, a class; bare and as (data, context) pairs) for Sum, DSum, Mean (no sum element, Sum, DSum, Sum(t), FillCompute(Sum)) and VarianceMeanCount; the exception is caught and the element is used further.  The oracle demands the observations of the same history without these fills on a new element (aggregate and last context of the values that WERE filled) and reset-equals-fresh over continuations that contain such fills; the Lean model is run on the history without them (a raising fill is the identity of the model state - not yet a model-level outcome).  Partially bad data vectors of Vectorize (component i raises after components < i were filled) stay outside like too-short vectors: no claim until the next reset.",
     "exact arithmetic: ints (of any size - also beyond 2**53, where only int arithmetic is exact: the typed model tsumM says "
     "when the total is an int), and finite floats chosen so that every partial sum and square is exactly representable; a "
     "Sum history in which a float addition rounds is judged by the oracle alone, within the forward error bound "
@@ -262,6 +263,33 @@ def _value(spec, v):
     if v.get("c") is None:
         return d
     return (d, _ordered(v["c"], v.get("co", 0)))
+
+
+_BAD_DATA = {"str": "x", "none": None, "list": [], "dict": {"v": 1}, "obj": object}
+
+
+def _bad_value(v):
+    """the value of an op ["fb", {"b": kind, "c": context | None}]: a value whose data part is no number (a string,
+    None, an empty list, a dictionary, a class) - no sum can add it, so fill() raises and nothing was filled"""
+    d = _BAD_DATA[v["b"]]
+    if v.get("c") is None:
+        return d
+    return (d, _ordered(v["c"], v.get("co", 0)))
+
+
+def _fb_kind(spec):
+    """element kinds whose fill adds the data to a sum at once (a value that is no number makes fill() raise)"""
+    k = spec["k"]
+    return k in ("sum", "dsum", "vmc") or (k == "mean" and spec["seq"] in (None, "sum", "dsum", "sumt", "fcsum"))
+
+
+def _nofb(case, res=None):
+    """the history without the fills of non-numbers (and the observations without theirs)"""
+    keep = [i for i, op in enumerate(case["ops"]) if op[0] != "fb"]
+    c2 = dict(case, ops=[case["ops"][i] for i in keep])
+    if res is None or "obs" not in res:
+        return c2, res
+    return c2, dict(res, obs=[res["obs"][i] for i in keep])
 
 
 def _ctx_of(v):
@@ -487,9 +515,9 @@ def _run_ops(el, spec, ops, live=None):
                 obs.append({"fi": [_enc(y) for y in rc.got]})
             except Exception as e:
                 obs.append({"fie": exc_name(e)})
-        elif op[0] == "f":
+        elif op[0] in ("f", "fb"):
             try:
-                (drv.update if alias else drv.fill)(_value(spec, op[1]))
+                (drv.update if alias else drv.fill)(_value(spec, op[1]) if op[0] == "f" else _bad_value(op[1]))
                 obs.append({"f": None})
             except Exception as e:
                 obs.append({"f": exc_name(e)})
@@ -550,6 +578,10 @@ def run_impl(case):
     for i, op in enumerate(ops):
         if op[0] == "r" and i + 1 < len(ops) and res["obs"][i] == "r":
             res["fresh"][str(i)] = _run_ops(_build(spec, zero=True), spec, ops[i + 1:])
+    if any(op[0] == "fb" for op in ops):
+        # the same history without the fills that raised, on a newly constructed element
+        if all(isinstance(o, dict) and o.get("f") is not None for op, o in zip(ops, res["obs"]) if op[0] == "fb"):
+            res["skipref"] = _run_ops(_build(spec), spec, [op for op in ops if op[0] != "fb"])
     return res
 
 
@@ -940,6 +972,7 @@ def _spec_check(case, req, rep):
 
 
 def model_requests(case):
+    case = _nofb(case)[0]
     return _main_requests(case) + _spec_requests(case)
 
 
@@ -1166,6 +1199,10 @@ def _norm_model(kind, spec, m):
 
 
 def compare(case, res, replies):
+    if any(op[0] == "fb" for op in case["ops"]):
+        if "skipref" not in res and "init_err" not in res:
+            return None                    # a non-number was accepted: judged by the oracle
+        case, res = _nofb(case, res)       # the model sees the filled values: a fill that raised filled nothing
     sreqs = _spec_requests(case)
     nmain = len(replies) - len(sreqs)
     for m in replies[:nmain]:
@@ -1636,12 +1673,26 @@ def oracle(case, res):
             return bad
     if res.get("live"):
         return f"{res['live'][0]} (history {_show(ops)})"
+    # 0. a fill that raised (its data is no number) filled nothing: the element shows what it shows for the history
+    #    without these fills ("the aggregate of the filled values ... the context of the last filled value")
+    if "skipref" in res:
+        got = [o for op, o in zip(ops, obs) if op[0] != "fb"]
+        ref = res["skipref"]
+        if _by_value(got) != _by_value(ref):
+            kept = [i for i, op in enumerate(ops) if op[0] != "fb"]
+            j = next(jj for jj in range(len(ref)) if _by_value(got[jj]) != _by_value(ref[jj]))
+            return (f"op {kept[j]} {_show([ops[kept[j]]])} gives {got[j]}; without the fills that raised (they filled "
+                    f"nothing) a new element gives {ref[j]} (history {_show(ops)})")
     # 1. the documented aggregate, for every compute whose preceding fills (since construction / the last reset) all succeeded
     fills, zero, clean = [], False, True
     gscale = spec.get("scale0")            # Graph: the scale a newly constructed graph has
     if (spec.get("context0") or {}).get("scale") is not None:
         gscale = spec["context0"]["scale"]     # adopted by __init__ (a contradiction is a construction error)
     for i, (op, o) in enumerate(zip(ops, obs)):
+        if op[0] == "fb":
+            if o.get("f") is None:
+                clean = False              # the element accepted the value: it is a filled value, no reference for it
+            continue                       # it raised: nothing was filled
         if op[0] == "f":
             if o.get("f") is not None:
                 if spec["k"] == "vec" and o["f"] == "Other:IndexError" and (
@@ -1779,6 +1830,8 @@ def _show(ops):
         elif op[0] == "f":
             v = op[1]          # the context as it is written (insertion order included)
             out.append(f"fill({v['d']!r}{'' if v.get('c') is None else ', ' + repr(_ordered(v['c'], v.get('co', 0)))})")
+        elif op[0] == "fb":
+            out.append(f"fill({_bad_value(op[1])!r}) [raises]")
         else:
             out.append({"c": "compute()", "r": "reset()"}[op[0]])
     return "; ".join(out)
@@ -1872,6 +1925,8 @@ def classify(case, res):
                 labels.append("compute-error:" + o["ce"])
     if any(op[0] == "r" for op in case["ops"]):
         labels.append("with-reset")
+    if any(op[0] == "fb" for op in case["ops"]):
+        labels.append("with-a-fill-that-raises")
     fl = [op[1] for op in case["ops"] if op[0] == "f"]
     if any(v.get("co") for v in fl):
         labels.append("context-key-order-varied")
@@ -1890,7 +1945,8 @@ def classify(case, res):
 def signature(case, failure):
     spec = case["el"]
     what = "reset-not-fresh" if "differs from a newly constructed one" in failure else (
-        "construction" if failure.startswith("constructing") else "aggregate")
+        "construction" if failure.startswith("constructing") else (
+            "failed-fill" if "without the fills that raised" in failure else "aggregate"))
     return f"{spec['k']}:{what}"
 
 
@@ -2498,9 +2554,24 @@ def gen_cases(ctx):
         depth = (3 if big else 4) if quick else (4 if big else 5)
         for h in _all_histories(alphabet, depth):
             yield {"el": spec, "ops": h, "sh": sh}
+    # histories with fills that raise (data that is no number) in the middle: every short one for every sum-like element
+    for spec, sh, (v1, v2) in _specs_small():
+        if not _fb_kind(spec) or spec.get("via"):
+            continue
+        alphabet = [["f", v1], ["fb", {"b": "str", "c": {"b": 9}}], ["c"], ["r"]]
+        if not quick:
+            alphabet.insert(2, ["fb", {"b": "none", "c": None}])
+        for h in _all_histories(alphabet, 3 if quick else 4):
+            if any(o[0] == "fb" for o in h):
+                yield {"el": spec, "ops": h, "sh": sh}
     n = 12000 if quick else 170000
     for _ in range(n):
-        yield _rand_case(rng, 12)
+        case = _rand_case(rng, 12)
+        if _fb_kind(case["el"]) and rng.random() < 0.3:
+            for _i in range(rng.randint(1, 3)):
+                case["ops"].insert(rng.randint(0, len(case["ops"])),
+                                   ["fb", {"b": rng.choice(sorted(_BAD_DATA)), "c": copy.deepcopy(rng.choice(_CTXS[:6]))}])
+        yield case
 
 
 # ---- MANIFEST texts ------------------------------------------------------------------------
